@@ -31,7 +31,8 @@ type vzOracles struct {
 	on map[string]bool
 
 	// the chain as the correct nodes finalized it (C03)
-	finalized map[uint64]string
+	finalized          map[uint64]string
+	committedByCorrect map[uint64]string // first hash a correct node recorded as committed, per height (H-NET)
 
 	// what the chain prescribes as validator set per height (C01, C07): height -> set
 	prescribed map[uint64]tmconsensus.ValidatorSet
@@ -209,6 +210,17 @@ func (o *vzOracles) onCommittedHeaderSaved(nd *vzNode, ch tmconsensus.CommittedH
 	}
 	o.checkCommitCertificate(nd, "committed-header-store", ch.Header, ch.Proof)
 	o.checkValidatorSetOfHeader(nd, ch.Header)
+	// C03, one step before finalization: the committed header stores of correct nodes agree
+	if o.w.adv == nil && !nd.byz {
+		if o.committedByCorrect == nil {
+			o.committedByCorrect = map[uint64]string{}
+		}
+		if have, ok := o.committedByCorrect[h]; ok && have != string(ch.Header.Hash) {
+			o.violate("C03", "committed-disagreement", "%s recorded %x as committed at height %d but another correct node recorded %x", nd.ident(), ch.Header.Hash, h, have)
+		} else {
+			o.committedByCorrect[h] = string(ch.Header.Hash)
+		}
+	}
 }
 
 func (o *vzOracles) onNetworkHeightRound(nd *vzNode, vh uint64, vr uint32, ch uint64, cr uint32) {
